@@ -324,6 +324,64 @@ def gen_vhistory(rng, k=1, restart=None):
     return c, procs, (val_steps, has_val), theta
 
 
+_API_PROBES = None
+
+
+def api_probes() -> dict[str, bool]:
+    """behavioural facts about the Checkpointer, probed on the REAL class (robust against any rewrite of the bodies):
+    does the constructor strip DataParallel from `model` / from `*model` keys, does `save` do nothing with save_to_disk=False,
+    does `_load_model` raise on missing keys, does `load_models_from_file` leave non-model objects alone.
+    A probe that cannot be run is left out (the translator then keeps the model's value and reports `skipped`)."""
+    global _API_PROBES
+    if _API_PROBES is not None:
+        return _API_PROBES
+    from direct.checkpointer import Checkpointer
+
+    from props.c15 import make_obj, read_id
+
+    out: dict[str, bool] = {}
+
+    def probe(name, thunk):
+        try:
+            out[name] = bool(thunk())
+        except Exception:  # noqa: BLE001
+            pass
+
+    with toy.scratch_dir() as d:
+        dp = pathlib.Path(d)
+
+        def unwrap():
+            ck = Checkpointer(dp / "u", model=_wrap(PMod([(0, 1)]), 1), sensitivity_model=_wrap(PMod([(0, 1)]), 1), optimizer=make_obj(3, 1))
+            return not hasattr(ck.model, "module"), not hasattr(ck.checkpointables["sensitivity_model"], "module")
+        probe("ctorUnwrapsMain", lambda: unwrap()[0])
+        probe("ctorUnwrapsRegexKeys", lambda: unwrap()[1])
+
+        def guarded():
+            (dp / "g").mkdir()
+            Checkpointer(dp / "g", save_to_disk=False, model=PMod([(0, 1)])).save(1)
+            return not os.listdir(dp / "g")
+        probe("saveGuarded", guarded)
+
+        def missing():
+            ck = Checkpointer(dp / "m", model=PMod([(0, 1)]))
+            try:
+                ck._load_model(PMod([(0, 1), (1, 1)]), PMod([(0, 5)]).state_dict())
+            except NotImplementedError:
+                return True
+            return False
+        probe("missingKeysRaise", missing)
+
+        def only_models():
+            (dp / "o").mkdir()
+            Checkpointer(dp / "o", model=PMod([(0, 5)]), optimizer=make_obj(3, 4)).save(1)
+            o = make_obj(3, 2)
+            Checkpointer(dp / "o", model=PMod([(0, 1)]), optimizer=o).load_models_from_file(dp / "o" / "model_1.pt")
+            return read_id(3, o) == 2
+        probe("modelsFromFileOnlyModels", only_models)
+    _API_PROBES = out
+    return out
+
+
 _TRAIN_OBJECTS = None
 
 
